@@ -4,7 +4,7 @@ set -e
 cd "$(dirname "$0")"
 export CARGO_NET_OFFLINE=true
 (cd tools/translate && cargo build --release --offline)
-tools/translate/target/release/lv-translate /repo lean/LoraVerif/Gen || true
+tools/translate/target/release/lv-translate "$(readlink -f repo-link)" lean/LoraVerif/Gen || true
 (cd lean && lake build LoraVerif lvdriver)
 (cd harness && cargo build --release --offline)
 echo setup-done
